@@ -51,6 +51,22 @@ SetLast(fs, id, data) == [fs EXCEPT !.lines[Len(fs.lines)] = [line |-> @.line, i
    tested where the slot is taken, i.e. AFTER the decision whether the unit begins a new frame: the first
    unit of the next frame completes a frame of exactly MaxLines lines; the unit MaxLines + 1 of one frame
    is a malformed unit ("err": VBI_ERR_SLICED_BUFFER_OVERFLOW) whatever its line number is.             *)
+(* Where a frame begins when the line number is undefined (line_offset 0, Teletext only: the unit tells its field parity and
+   nothing else).  EN 301 775 4.1 / 4.5.2: the lines of a frame ascend, so within a frame the field can only go up.
+     - the unit is the first data unit of a packet and its field lies BELOW the field of the last line taken: the field went
+       back, a new frame begins (no choice);
+     - first unit of a packet, field ABOVE the last one (second field behind first field lines): EN 301 775 allows both a new
+       frame (a frame that carries second field lines only) and the second field of the same frame sent in a packet of its
+       own.  The demultiplexer documents "the toggling of the field_parity flag indicates a new field ... so we take the
+       line_offset into account as well" and takes ANY change of the field at the start of a packet for a new frame.  This
+       is the named clause FieldUpStartsFrame (TRUE = libzvbi; a cfg may replace it by FALSE: the frame goes on);
+     - same field: the unit goes on with the frame in progress - a frame that begins so is not recognisable for any receiver;
+     - nothing taken yet in this frame (ldu = 0: the first unit after a frame was completed, or of the stream): it is the
+       first line of the frame whatever its field is.  Without this a frame that begins with an undefined line of the second
+       field would be "new" again and again - no frame could ever take it (Progress below).                                 *)
+FieldUpStartsFrame == TRUE
+UndefStartsFrame(fs, field) ==
+  fs.ldu # 0 /\ fs.ndu = 0 /\ (field < fs.lf \/ (field > fs.lf /\ FieldUpStartsFrame))
 LineAddr(fs, b, s625) ==
   LET field == 1 - Bits(b, 5, 5)
       off   == b % 32
@@ -61,11 +77,15 @@ LineAddr(fs, b, s625) ==
             ELSE IF full THEN [r |-> "err", fs |-> fs]
             ELSE [r |-> "ok", fs |-> [fs EXCEPT !.lf = field, !.lfl = off, !.lfr = fl, !.ndu = @ + 1,
                                                  !.lines = Append(@, [line |-> fl, id |-> 0, data |-> <<>>])]]
-     ELSE IF fs.ldu # 0 /\ field # fs.lf /\ fs.ndu = 0 THEN [r |-> "new", fs |-> fs]
+     ELSE IF UndefStartsFrame(fs, field) THEN [r |-> "new", fs |-> fs]
      ELSE IF fs.ldu # 0 /\ field < fs.lf THEN [r |-> "err", fs |-> fs]
      ELSE IF full THEN [r |-> "err", fs |-> fs]
      ELSE [r |-> "ok", fs |-> [fs EXCEPT !.lf = field, !.lfl = 0, !.ndu = @ + 1,
                                           !.lines = Append(@, [line |-> 0, id |-> 0, data |-> <<>>])]]
+
+(* Progress: a frame that was just begun takes its first unit - "new" is never answered twice for the same data unit, so the
+   loop "complete the frame, begin the next one, look at the unit again" of PacketFrame / demux_pes_packet_frame() ends. *)
+FreshFrameTakes == \A b \in 0..255 : \A s625 \in BOOLEAN : LineAddr(FS0, b, s625).r # "new"
 
 \* one data unit at offset q of X (its length was checked against the packet end)
 Unit(fs, X, q) ==
